@@ -16,7 +16,11 @@ def rnd_files(rng, n, maxlen):
     files = []
     while len(files) < n:
         r = rng.random()
-        if r < 0.6:
+        if r < 0.05:
+            # names that are also words the format or the game files use as labels: a record's own name label must not be taken for
+            # structure (seeded change C16-4 took the header padding from a label called "Data")
+            nm = rng.choice([b"Data", b"Count", b"Info", b"Header", b"data"])
+        elif r < 0.6:
             nm = rng.choice(NAME_PARTS) + (str(len(files)).encode() if rng.random() < 0.8 else b"")
         elif r < 0.8:
             nm = rng.choice(SJ_NAMES) + str(len(files)).encode()
@@ -103,7 +107,8 @@ class C16(PropertyCheck):
                       junk_text=rng.random() < 0.3, dup_strings=rng.random() < 0.3,
                       tail=rng.choice([0.0, 0.0, 0.3, 1.0]), end_exact=rng.random() < 0.5, share=share,
                       indices=rng.choice(["seq", "seq", "zero", "dup", "random"]),
-                      decoys=rng.choice([None, None, None, "count", "info", "both"]))
+                      decoys=rng.choice([None, None, None, "count", "info", "both"]),
+                      data_label=rng.choice(["base", "base", "none", "body", "end"]))
             image, exp = txtfile.arc_write(files, rng, **kw)
             cases.append(Case(render(image, exp, files), "layout-knobs"))
         if not quick:
